@@ -106,6 +106,12 @@ pub struct Internet {
     pub deep_delegation: Option<usize>,
     pub hostile_zone: Option<usize>,
     pub injection: Injection,
+    /// how the hostile servers treat the genuine response before adding the injection:
+    /// 0 keep it; 1 drop its records (NOERROR, AA); 2 drop its records and say NXDOMAIN;
+    /// 3 keep it but flip the AA bit; 4 keep it but re-own its records (see `reown`)
+    pub hostile_mode: u8,
+    /// (new owner for answer records owned by the question name, new owner for authority NS records)
+    pub reown: Option<(Name, Name)>,
 }
 
 impl Internet {
@@ -322,6 +328,31 @@ impl Internet {
         let mut m = self.answer(srv, q)?;
         if let Some(hz) = self.hostile_zone {
             if self.servers[srv].zones.contains(&hz) {
+                match self.hostile_mode {
+                    1 | 2 => {
+                        m.answers.clear();
+                        m.authorities.clear();
+                        m.additionals.clear();
+                        m.metadata.authoritative = true;
+                        m.metadata.response_code = if self.hostile_mode == 2 { ResponseCode::NXDomain } else { ResponseCode::NoError };
+                    }
+                    3 => m.metadata.authoritative = !m.metadata.authoritative,
+                    4 => {
+                        if let Some((ans_owner, ns_owner)) = &self.reown {
+                            for r in m.answers.iter_mut() {
+                                if r.name == q.name {
+                                    r.name = ans_owner.clone();
+                                }
+                            }
+                            for r in m.authorities.iter_mut() {
+                                if r.record_type() == RecordType::NS {
+                                    r.name = ns_owner.clone();
+                                }
+                            }
+                        }
+                    }
+                    _ => {}
+                }
                 for r in &self.injection.answers {
                     m.add_answer(r.clone());
                 }
